@@ -4,7 +4,7 @@ From AY Require Import Model.Merge Model.Eq Proofs.NodeInd Proofs.FlagsLemmas Sp
   Proofs.MergeNotNew Proofs.MergeGen Proofs.MergeMode Proofs.MergePrio Model.Loader Proofs.LoaderLemmas Proofs.PrioPath Proofs.PrioLoad Proofs.EvalPlain Model.Eval.
 
 Definition nz_b (f : flags) : bool :=
-  match f_del f, f_new f, f_inew f with None, None, None => true | _, _, _ => false end.
+  match f_del f with None => (negb (ob_eqb (f_new f) (Some false)) && negb (ob_eqb (f_inew f) (Some false)))%bool | Some _ => false end.
 Definition idel_none_b (f : flags) : bool := match f_idel f with None => true | Some _ => false end.
 
 Fixpoint newz_b (n : node) : bool :=
@@ -16,7 +16,7 @@ Fixpoint newz_b (n : node) : bool :=
   end.
 
 Lemma nz_b_ok f : nz_b f = true -> NZ f.
-Proof. unfold nz_b, NZ, OZ. destruct (f_del f), (f_new f), (f_inew f); try discriminate. auto. Qed.
+Proof. unfold nz_b, NZ, OZ. destruct (f_del f); [discriminate|]. destruct (f_new f) as [[|]|], (f_inew f) as [[|]|]; cbn; try discriminate; intros _; repeat split; congruence. Qed.
 
 Lemma newz_b_ok : forall n, newz_b n = true -> NewZ n.
 Proof.
@@ -67,7 +67,7 @@ Proof.
 Qed.
 
 (* ---------- the same from the document down ---------- *)
-Definition tz_b (t : tagkw) : bool := match t_del t, t_new t with None, None => true | _, _ => false end.
+Definition tz_b (t : tagkw) : bool := match t_del t with None => negb (ob_eqb (t_new t) (Some false)) | Some _ => false end.
 
 Fixpoint yz_b (y : ynode) : bool :=
   match y with
@@ -78,7 +78,7 @@ Fixpoint yz_b (y : ynode) : bool :=
   end.
 
 Lemma tz_b_ok t : tz_b t = true -> tz t.
-Proof. unfold tz_b, tz. destruct (t_del t), (t_new t); try discriminate. auto. Qed.
+Proof. unfold tz_b, tz. destruct (t_del t); [discriminate|]. destruct (t_new t) as [[|]|]; cbn; try discriminate; intros _; split; congruence. Qed.
 
 Lemma yz_b_ok : forall y, yz_b y = true -> yz y.
 Proof.
